@@ -53,7 +53,9 @@ ASSUMPTIONS = [
     "packet numbers handed over by decrypt_packet lie in [0, 2^62) (checked on every op fed to the model)",
     "delivery handlers run only for frames that were written (C08; checked on every op fed to the model)",
     "the clock is monotone; the encoded ACK delay is in [0, 2^62)",
-    "ack_timely: at most MAX_ACK_RANGES ranges are queued when the ACK is written (otherwise ack_timely_cap_refuted applies)",
+    "ack_timely: at most MAX_ACK_RANGES ranges are queued when the ACK is written; with docs/C12-fix-2.patch (CAP_ACK_NOW, "
+    "PACING_LE probed from the source) this premise is discharged by the driver discipline 'a datagrams_to_send with room "
+    "after every receive_datagram' (ack_timely_cap); otherwise / without the discipline ack_timely_cap_refuted applies",
 ]
 
 SCALE = 1 << 52
@@ -80,7 +82,7 @@ def consts():
             # correspondence still run, with the constants of the tree the model was written for
             _CONSTS = {"ACK_FRAME_CAPACITY": 64, "MAX_ACK_RANGES": 32, "UINT_VAR_MAX_SIZE": 8, "FT_ACK": 2,
                        "MIN_FRAME_CAPACITY": 2, "LOCAL_ACK_DELAY_EXPONENT": 3, "ACK_DELAY_US": 1000,
-                       "ADV_MAX_ACK_DELAY_MS": 25}
+                       "ADV_MAX_ACK_DELAY_MS": 25, "CAP_ACK_NOW": False, "PACING_LE": False}
     return _CONSTS
 
 
@@ -622,9 +624,25 @@ def oracle_endpoint(pair, ep, tracer, index_of, end_time, max_ack_delay):
                     continue
                 acks = [s for s in sent if s[1] == 2 and t <= s[0] <= deadline and s[3]]
                 capped = bool(acks) and all(len(s[3]) >= cap and min(a for a, _ in s[3]) > pn for s in acks)
+                sig = {"oracle": "O2", "cause": "ack-range-cap" if capped else "not-acknowledged-in-time"}
+                if capped:
+                    # the driver discipline of ack_timely_cap: was every receive_datagram since the packet arrived followed by
+                    # a datagrams_to_send before the next receive_datagram (up to the first capped ACK)?
+                    first_capped = min(s[0] for s in acks)
+                    pending, discipline = True, True
+                    for h2 in tracer.hist[hi + 1:]:
+                        if h2[1] > first_capped:
+                            break
+                        if h2[0] == "rx":
+                            if pending:
+                                discipline = False
+                            pending = True
+                        elif h2[0] == "tx":
+                            pending = False
+                    sig["discipline"] = discipline
                 bad.append(("ack-eliciting packet %d (largest so far, application space) accepted at %.6f is not covered by "
-                            "any ACK frame sent by %.6f%s" % (pn, t, deadline, " (dropped by the MAX_ACK_RANGES cap)" if capped else ""),
-                            {"oracle": "O2", "cause": "ack-range-cap" if capped else "not-acknowledged-in-time"}))
+                            "any ACK frame sent by %.6f%s" % (pn, t, deadline, (" (dropped by the MAX_ACK_RANGES cap; a send after "
+                            "every receive: %s)" % sig["discipline"]) if capped else ""), sig))
                 continue
             first_cover = min(s[0] for s in cover)
             for (ti, tt, v) in timers:
@@ -1018,6 +1036,8 @@ def w_run(case):
             space.largest_received_time = t0
         if space.ack_at is None:
             space.ack_at = t0 + 0.001
+        if consts()["CAP_ACK_NOW"] and len(space.ack_queue) >= consts()["MAX_ACK_RANGES"]:
+            space.ack_at = min(space.ack_at, t0)      # the record step is emulated here (see below), patch included
         tin += [1, pn, 1, enc(t0), enc(t0 + 0.001) - enc(t0), 0, 1]
         tout += [0] + opt(space.ack_at) + [space.largest_received_packet] + \
             dump_ranges([(r.start, r.stop - 1) for r in space.ack_queue])
@@ -1192,7 +1212,7 @@ def run_witnesses(ctx, s_conn):
     for case in corr.load_corpus("C12", "witness"):
         subs = split_cases(case)
         s_wit.run(subs)
-        WITNESS["_correspondence_" + case["expect"]] = {"disagreements": s_wit.stats["disagreements"]}
+        WITNESS["_correspondence"] = {"disagreements": s_wit.stats["disagreements"], "cases": s_wit.stats["cases"]}
         r = Run(case)
         res = r.results()[0]
         tr = r.tracers[0]
@@ -1209,9 +1229,13 @@ def run_witnesses(ctx, s_conn):
                             covered = True
         queued = any(rg.start <= target < rg.stop for rg in tr.ep.conn._loss.spaces[2].ack_queue)
         reproduced = (not covered) and (not queued) and tr.ep.conn._loss.spaces[2].ack_at is None
-        WITNESS[case["expect"]] = {"reproduced": reproduced, "packet": target, "oracle": [b[1] for b in res["bad"]]}
-        if not reproduced:
-            ctx.notes.append("witness %s no longer reproduces on this tree (the refuted theorem describes the model only)" % case["expect"])
+        # "cap-discipline" (a send after every receive) must NOT reproduce on a tree with docs/C12-fix-2.patch
+        # (CAP_ACK_NOW, theorem ack_timely_cap); the other witnesses are refuted theorems that hold for every tree
+        expected = (not consts()["CAP_ACK_NOW"]) if case["expect"].startswith("cap-discipline") else True
+        WITNESS[case.get("name", case["expect"])] = {"reproduced": reproduced, "expected": expected, "packet": target,
+                                                      "oracle": [b[1] for b in res["bad"]][:3]}
+        if reproduced != expected:
+            ctx.notes.append("witness %s: reproduced=%s, expected %s on this tree" % (case.get("name", case["expect"]), reproduced, expected))
 
 
 def _count(cases):
@@ -1252,7 +1276,8 @@ def run(ctx):
         "application traffic.  writer: QuicConnection._write_ack_frame / _on_ack_delivery on real packet builders with the "
         "room around the reserved capacity, 1..70 ranges, 8-byte varints.  distinct = distinct op-token encoding, "
         "non-trivial = at least one ACK frame was written",
-        {"op_totals": dict(TOTALS), "refuted_witnesses_on_implementation": dict(WITNESS)})
+        {"op_totals": dict(TOTALS), "refuted_witnesses_on_implementation": dict(WITNESS),
+         "tree_flags": {"CAP_ACK_NOW": consts()["CAP_ACK_NOW"], "PACING_LE": consts()["PACING_LE"]}})
 
 
 def replay(ctx, rep):
